@@ -88,7 +88,7 @@ pub fn e1_jobs(prop: &str, tier: Tier) -> (Vec<E1Job>, usize) {
         "C04x" => vec![],
         "C18" => if q { vec![pill(4), pc(7), pbs(3), pbj(4), pn(3), paj(4), pc3(9)] } else { vec![pill(5), pc(8), pc3(10), paj(5), pb(4), pbj(5), pn(4), pe(1, true, 2)] },
         "C19" => if q { vec![pa15(3), pb(3), pd(5), pe(1, true, 2), pc(5), paj(4), pill(5)] } else { vec![pa(3), pb(3), pbs(4), pd(5), pe(1, true, 2), pc(6), pf(4), paj(5), paj5(4)] },
-        "C20" => if q { vec![pn(5), pill(4), pb(3), pc(7), pd(5), pe(1, true, 2), paj(4), pa15(3)] } else { vec![pn(5), pb(4), pc(8), pd(6), pe(1, true, 2)] },
+        "C20" => if q { vec![pn(4), pill(4), pb(3), pc(7), pd(5), pe(1, true, 2), paj(4), pa15(3)] } else { vec![pn(5), pb(4), pc(8), pd(6), pe(1, true, 2)] },
         _ => vec![],
     };
     let mut jobs = jobs;
@@ -630,6 +630,7 @@ pub fn e2_jobs(prop: &str, tier: Tier) -> Vec<E2Job> {
                 }
                 jobs.push(E2Job { label: "batches whose controller dispatches the inner plan 2-3 times (hand-written / MultiDispatcher), single panicking system, then a clean dispatch".into(), scenarios: panic_scen(&plans, &[Mode::Dispatch, Mode::Seq], false), bounds: b(1), delay: false });
             }
+            jobs.push(E2Job { label: "barrier plans of <= 3 ops (leading / repeated barriers, dependencies across them), single panicking system".into(), scenarios: panic_scen(&barr(3), &[Mode::Dispatch, Mode::Seq], false), bounds: b(1), delay: false });
             jobs.push(E2Job { label: "3-op plans, single panicking system".into(), scenarios: panic_scen(&depplans(3).into_iter().filter(|p| p.len() == 3).collect::<Vec<_>>(), &[Mode::Dispatch], !q), bounds: b(if q { 1 } else { 2 }), delay: false });
             {
                 // plans in which the balancing rule really forms groups of 2+ systems (running-time hints 1..3),
@@ -656,6 +657,25 @@ pub fn e2_jobs(prop: &str, tier: Tier) -> Vec<E2Job> {
             if !q {
                 jobs.push(E2Job { label: "small batch plans with an outer system".into(), scenarios: panic_scen(&eb(2), &[Mode::Dispatch], false), bounds: b(0), delay: false });
             }
+        }
+        "C13" => {
+            // AsyncDispatcher::setup, also while a dispatch is in flight and repeatedly
+            let sy = |n: &str, w: &[u8]| Op::Sys(crate::spec::SysSpec { name: n.into(), reads: vec![], writes: w.to_vec(), time: 3, deps: vec![] });
+            let tlop = || Op::Tl(crate::spec::SysSpec { name: String::new(), reads: vec![], writes: vec![1], time: 3, deps: vec![] });
+            let plans: Vec<Vec<Op>> = vec![
+                vec![sy("a", &[0])],
+                vec![sy("a", &[0]), tlop()],
+                vec![sy("a", &[0]), Op::Batch(crate::spec::BatchSpec { name: "b".into(), deps: vec![], ctrl: crate::spec::CtrlData::Unit, times: 1, multi: false, fetch_data: false, inner: vec![sy("i", &[1]), tlop()] })],
+            ];
+            let mut scs = Vec::new();
+            for p in &plans {
+                for script in ["S", "SS", "DS", "DSW", "SDS", "DSS", "DWS", "DSDW"] {
+                    let mut sc = Scenario::plain(p.clone(), Mode::Async, 0);
+                    sc.script = Some(script.to_string());
+                    scs.push(sc);
+                }
+            }
+            jobs.push(E2Job { label: "async dispatcher: setup before / during / after a dispatch, repeated".into(), scenarios: scs, bounds: b(if q { 1 } else { 2 }), delay: false });
         }
         "C12" => {
             jobs.push(E2Job { label: "thread-local plans, <= 2 ops".into(), scenarios: scen(&tl(2), &[Mode::Dispatch, Mode::Par, Mode::Seq, Mode::Async], &[1]), bounds: b(if q { 2 } else { 3 }), delay: false });
@@ -726,6 +746,23 @@ pub fn e2_jobs(prop: &str, tier: Tier) -> Vec<E2Job> {
                     }
                 }
                 jobs.push(E2Job { label: "async scripts over thread-local plans (<= 2 ops): polling / accessors / second dispatch between dispatch and wait".into(), scenarios: scs, bounds: b(if q { 1 } else { 2 }), delay: false });
+            }
+            {
+                // controllers that dispatch the inner plan 0, 2 or 3 times: the inner thread-local systems run in EVERY pass,
+                // after that pass's ordinary systems
+                let sy = |n: &str, w: &[u8]| Op::Sys(crate::spec::SysSpec { name: n.into(), reads: vec![], writes: w.to_vec(), time: 3, deps: vec![] });
+                let tlop = |w: &[u8]| Op::Tl(crate::spec::SysSpec { name: String::new(), reads: vec![], writes: w.to_vec(), time: 3, deps: vec![] });
+                let mut plans = Vec::new();
+                for multi in [false, true] {
+                    for times in [0u8, 2, 3] {
+                        for inner in [vec![sy("a", &[0]), tlop(&[0])], vec![sy("a", &[0]), sy("b", &[0]), tlop(&[]), tlop(&[0])], vec![tlop(&[])]] {
+                            let batch = Op::Batch(crate::spec::BatchSpec { name: "b".into(), deps: vec![], ctrl: crate::spec::CtrlData::Unit, times, multi, fetch_data: false, inner });
+                            plans.push(vec![batch.clone(), tlop(&[])]);
+                            plans.push(vec![batch]);
+                        }
+                    }
+                }
+                jobs.push(E2Job { label: "batches whose controller dispatches 0 / 2 / 3 times (hand-written and MultiDispatcher) with thread-local systems inside".into(), scenarios: scen(&plans, &[Mode::Dispatch], &[1, 2]), bounds: b(if q { 0 } else { 1 }), delay: false });
             }
             jobs.push(E2Job { label: "thread-local plans, 3 ops".into(), scenarios: scen(&tl(3).into_iter().filter(|p| p.len() == 3).collect::<Vec<_>>(), &[Mode::Dispatch, Mode::Async], &[1]), bounds: b(if q { 1 } else { 2 }), delay: false });
             if !q {
@@ -908,6 +945,28 @@ fn c11_scenarios(w: usize, n: usize) -> Vec<(String, Scenario)> {
         s.foreign_pool = Some(1);
         s.rendezvous = Some((ids.clone(), w as u16));
         v.push((format!("dispatch from a worker of a foreign 1-thread pool / width {} / own pool of {} threads", w, n), s));
+    }
+    // a group of two systems beside a one-system group: the lone system meets the SECOND system of the other group
+    // (the groups of a stage are independent sequences, not positions that advance in lock step)
+    if w == 2 {
+        let sy = |n: &str, r: &[u8], wr: &[u8], t: u8| Op::Sys(crate::spec::SysSpec { name: n.into(), reads: r.to_vec(), writes: wr.to_vec(), time: t, deps: vec![] });
+        let trio = || vec![sy("lone", &[], &[], 5), sy("head", &[], &[0], 1), sy("tail", &[0], &[], 1)];
+        for user in [true, false] {
+            for mode in [Mode::Dispatch, Mode::Async] {
+                let mut s = Scenario::plain(trio(), mode, 2);
+                if user {
+                    s.user_pool = Some(n);
+                } else {
+                    s.default_threads = Some(n);
+                }
+                s.rendezvous = Some((vec![0, 2], 2));
+                v.push((format!("lone system meets the second system of a two-system group / {} threads", n), s));
+            }
+        }
+        let mut s = Scenario::plain(vec![Op::Batch(crate::spec::BatchSpec { name: "b".into(), deps: vec![], ctrl: crate::spec::CtrlData::Unit, times: 1, multi: false, fetch_data: false, inner: trio() })], Mode::Dispatch, 1);
+        s.user_pool = Some(n);
+        s.rendezvous = Some((vec![1, 3], 2));
+        v.push((format!("the same inside a batch / {} threads", n), s));
     }
     // the user-supplied pool handed over late: after the registrations (the batch's sub-dispatcher has been
     // built by then and the default pool is one thread wide), or after a one-thread decoy pool
@@ -1188,6 +1247,29 @@ pub fn run_c15(tier: Tier, budget: Duration, frag: &mut Frag) {
             }
         }
         frag.col.merge(col);
+    }
+    // the dispatcher is built and driven from a worker of its own (user-supplied) pool
+    {
+        let mut scs = Vec::new();
+        for (_, p) in plans.iter().take(4) {
+            for script in ["DW", "DWDW", "DRW", "DXW", "DDW", "DOW"] {
+                for n in [2usize, 3] {
+                    let mut sc = Scenario::plain(p.clone(), Mode::Async, 0);
+                    sc.script = Some(script.to_string());
+                    sc.user_pool = Some(n);
+                    sc.script_in_pool = true;
+                    scs.push(sc);
+                }
+            }
+        }
+        let t0 = Instant::now();
+        let opts = ExploreOpts { bounds: vec![0, 1], all_points: false, deadline: t0 + budget / 5, max_execs: u64::MAX, keep_traces: 0, deadlock_prop: Some("C15"), delay_mode: false };
+        let r = run_scenarios(&scs, Mon::default(), &opts);
+        frag.parts.push(json!({"engine":"E2 schedmc","scenarios":"the async dispatcher built and driven from inside install() of its own user-supplied pool (2 / 3 threads); 6 scripts x 4 plans","n_scenarios":scs.len(),"scenarios_completed":r.completed,"preemption_bounds":[0,1],"schedules":r.executions,"states":r.nodes,"transitions":r.transitions,"deadlocks":r.deadlocks,"cap_hit":r.capped,"wall_s":t0.elapsed().as_secs_f64()}));
+        frag.states += r.nodes;
+        frag.transitions += r.transitions;
+        frag.exhaustive &= !r.capped;
+        frag.col.merge(r.col);
     }
     // plan shapes: every sequence of 2..4|5 stages, each single-group or two groups wide (code that treats runs of
     // single-group stages, or the stage behind them, differently)
